@@ -12,10 +12,21 @@ set_option linter.unusedSimpArgs false
 namespace XV.Tz
 open XV XV.Rx
 
-def gapChar (c : Nat) : Bool := c = 32 || c = 9 || c = 12 || c = 92 || c = 13 || c = 10
+def wsChar (c : Nat) : Bool := c = 32 || c = 9 || c = 12
+def contChar (c : Nat) : Bool := c = 92 || c = 13 || c = 10
+def gapChar (c : Nat) : Bool := wsChar c || contChar c
 
-/-- the source from `a` to `b` holds gap characters only -/
-def Gap (lines : List (List Nat)) (a b : Pos) : Prop := ∀ c ∈ srcText lines a b, gapChar c = true
+/-- a gap: what may lie between the end of one token and the start of the next.  Built from runs of blanks / tabs / form
+    feeds that START AT COLUMN 0 of a line (line-leading indentation), stretches of backslash / CR / LF (what the `End`
+    branch of the master pattern consumes: a backslash continuation), and nothing at all. -/
+inductive Gap (lines : List (List Nat)) : Pos → Pos → Prop
+  | empty {a b : Pos} : srcText lines a b = [] → Gap lines a b
+  | indent {n c : Nat} (l : List Nat) : 1 ≤ n → lines[n - 1]? = some l → c ≤ l.length →
+      (∀ i, i < c → ∃ x, l[i]? = some x ∧ wsChar x = true) → Gap lines ⟨n, 0⟩ ⟨n, c⟩
+  | cont {n c1 c2 : Nat} (l : List Nat) : 1 ≤ n → lines[n - 1]? = some l → c1 ≤ c2 → c2 ≤ l.length →
+      (∀ i, c1 ≤ i → i < c2 → ∃ x, l[i]? = some x ∧ contChar x = true) → Gap lines ⟨n, c1⟩ ⟨n, c2⟩
+  | trans {a b c : Pos} : Gap lines a b → Gap lines b c → Gap lines a c
+  | congr {a b b' : Pos} : off lines b = off lines b' → Gap lines a b → Gap lines a b'
 
 theorem mem_srcText (lines : List (List Nat)) (a b : Pos) (x : Nat) :
     x ∈ srcText lines a b ↔ ∃ i, off lines a ≤ i ∧ i < off lines b ∧ lines.flatten[i]? = some x := by
@@ -41,40 +52,87 @@ theorem mem_srcText (lines : List (List Nat)) (a b : Pos) (x : Nat) :
     congr 1
     omega
 
-theorem Gap.refl (lines : List (List Nat)) (a : Pos) : Gap lines a a := by
-  intro c hc; simp [srcText] at hc
+theorem Gap.refl (lines : List (List Nat)) (a : Pos) : Gap lines a a := .empty (by simp [srcText])
+theorem Gap.congr_off {lines : List (List Nat)} {a b b' : Pos} (h : off lines b = off lines b') (h1 : Gap lines a b) : Gap lines a b' := .congr h h1
+theorem Gap.of_empty {lines : List (List Nat)} {a b : Pos} (h : srcText lines a b = []) : Gap lines a b := .empty h
 
-theorem Gap.trans {lines : List (List Nat)} {a b c : Pos} (h1 : Gap lines a b) (h2 : Gap lines b c) : Gap lines a c := by
-  intro x hx
-  obtain ⟨i, i1, i2, i3⟩ := (mem_srcText lines a c x).mp hx
-  by_cases h : i < off lines b
-  · exact h1 x ((mem_srcText lines a b x).mpr ⟨i, i1, h, i3⟩)
-  · exact h2 x ((mem_srcText lines b c x).mpr ⟨i, by omega, i2, i3⟩)
+/-- on the current line, from column 0: indentation -/
+theorem Gap.on_line_ws (lines : List (List Nat)) (st : TState) (hl : LineOK lines st) (c : Nat) (h2 : c ≤ st.max)
+    (h : allIn wsChar st.line 0 c) : Gap lines ⟨st.lnum, 0⟩ ⟨st.lnum, c⟩ := by
+  refine .indent st.line.toList hl.one hl.cur (by rw [hl.max] at h2; simpa using h2) ?_
+  intro i hi
+  obtain ⟨x, hx1, hx2⟩ := h i (Nat.zero_le _) hi
+  exact ⟨x, by simpa using hx1, hx2⟩
 
-theorem Gap.congr_off {lines : List (List Nat)} {a b b' : Pos} (h : off lines b = off lines b') (h1 : Gap lines a b) : Gap lines a b' := by
-  intro x hx
-  apply h1 x
-  unfold srcText at hx ⊢
-  rw [h]; exact hx
+/-- on the current line: what a continuation skipped -/
+theorem Gap.on_line_cont (lines : List (List Nat)) (st : TState) (hl : LineOK lines st) (c1 c2 : Nat) (h12 : c1 ≤ c2) (h2 : c2 ≤ st.max)
+    (h : allIn contChar st.line c1 c2) : Gap lines ⟨st.lnum, c1⟩ ⟨st.lnum, c2⟩ := by
+  refine .cont st.line.toList hl.one hl.cur h12 (by rw [hl.max] at h2; simpa using h2) ?_
+  intro i hi1 hi2
+  obtain ⟨x, hx1, hx2⟩ := h i hi1 hi2
+  exact ⟨x, by simpa using hx1, hx2⟩
 
-theorem Gap.of_empty {lines : List (List Nat)} {a b : Pos} (h : srcText lines a b = []) : Gap lines a b := by
-  intro c hc; rw [h] at hc; cases hc
+/-- character `i` of the text is line-leading indentation: it stands on a line of the text and everything before it on
+    that line is a blank, a tab or a form feed -/
+def LineLeading (lines : List (List Nat)) (i : Nat) : Prop :=
+  ∃ n l, 1 ≤ n ∧ lines[n - 1]? = some l ∧ off lines ⟨n, 0⟩ ≤ i ∧ i < off lines ⟨n, 0⟩ + l.length ∧
+    ∀ j, off lines ⟨n, 0⟩ ≤ j → j ≤ i → ∃ x, lines.flatten[j]? = some x ∧ wsChar x = true
 
-/-- on the current line: the gap is what the line holds between the two columns -/
-theorem Gap.on_line (lines : List (List Nat)) (st : TState) (hl : LineOK lines st) (c1 c2 : Nat) (h12 : c1 ≤ c2) (h2 : c2 ≤ st.max)
-    (h : allIn gapChar st.line c1 c2) : Gap lines ⟨st.lnum, c1⟩ ⟨st.lnum, c2⟩ := by
-  intro x hx
-  rw [← slice_src lines st c1 c2 hl h12 h2] at hx
-  unfold slice at hx
-  obtain ⟨j, hj, hxj⟩ := List.mem_iff_getElem.mp hx
-  simp at hj
-  obtain ⟨c, hc1, hc2⟩ := h (c1 + j) (by omega) (by omega)
-  have : (st.line.extract c1 c2).toList[j] = c := by
-    simp
-    have := Array.getElem?_eq_some_iff.mp hc1
-    obtain ⟨_, hv⟩ := this
-    exact hv
-  rw [← hxj, this]; exact hc2
+theorem flatten_at (lines : List (List Nat)) (n : Nat) (l : List Nat) (hn : 1 ≤ n) (h : lines[n - 1]? = some l) (k : Nat) (hk : k < l.length) :
+    lines.flatten[off lines ⟨n, 0⟩ + k]? = l[k]? := by
+  obtain ⟨rest, hr⟩ := flatten_drop_prefix lines (n - 1) l h
+  have : off lines ⟨n, 0⟩ = prefixLen lines (n - 1) := by simp [off]
+  rw [this, ← List.getElem?_drop, hr, List.getElem?_append_left hk]
+
+/-- **what a gap holds, character by character**: every character of a gap is either a blank / tab / form feed that is
+    line-leading indentation, or a backslash / CR / LF -/
+theorem Gap.chars {lines : List (List Nat)} {a b : Pos} (h : Gap lines a b) :
+    ∀ i x, off lines a ≤ i → i < off lines b → lines.flatten[i]? = some x →
+      (wsChar x = true ∧ LineLeading lines i) ∨ contChar x = true := by
+  induction h with
+  | empty he =>
+    intro i x h1 h2 h3
+    have : x ∈ srcText lines _ _ := (mem_srcText lines _ _ x).mpr ⟨i, h1, h2, h3⟩
+    rw [he] at this; cases this
+  | @indent n c l hn hl hc hall =>
+    intro i x h1 h2 h3
+    have ho : off lines ⟨n, c⟩ = off lines ⟨n, 0⟩ + c := by simp [off]
+    rw [ho] at h2
+    have hk : i - off lines ⟨n, 0⟩ < l.length := by omega
+    have hfa := flatten_at lines n l hn hl (i - off lines ⟨n, 0⟩) hk
+    rw [show off lines ⟨n, 0⟩ + (i - off lines ⟨n, 0⟩) = i by omega, h3] at hfa
+    obtain ⟨y, hy1, hy2⟩ := hall (i - off lines ⟨n, 0⟩) (by omega)
+    rw [← hfa] at hy1
+    injection hy1 with hy1
+    subst hy1
+    refine Or.inl ⟨hy2, n, l, hn, hl, h1, by omega, ?_⟩
+    intro j hj1 hj2
+    obtain ⟨z, hz1, hz2⟩ := hall (j - off lines ⟨n, 0⟩) (by omega)
+    refine ⟨z, ?_, hz2⟩
+    have := flatten_at lines n l hn hl (j - off lines ⟨n, 0⟩) (by omega)
+    rw [show off lines ⟨n, 0⟩ + (j - off lines ⟨n, 0⟩) = j by omega] at this
+    rw [this]; exact hz1
+  | @cont n c1 c2 l hn hl h12 hc hall =>
+    intro i x h1 h2 h3
+    have ho1 : off lines ⟨n, c1⟩ = off lines ⟨n, 0⟩ + c1 := by simp [off]
+    have ho2 : off lines ⟨n, c2⟩ = off lines ⟨n, 0⟩ + c2 := by simp [off]
+    rw [ho1] at h1
+    rw [ho2] at h2
+    have hfa := flatten_at lines n l hn hl (i - off lines ⟨n, 0⟩) (by omega)
+    rw [show off lines ⟨n, 0⟩ + (i - off lines ⟨n, 0⟩) = i by omega, h3] at hfa
+    obtain ⟨y, hy1, hy2⟩ := hall (i - off lines ⟨n, 0⟩) (by omega) (by omega)
+    rw [← hfa] at hy1
+    injection hy1 with hy1
+    subst hy1
+    exact Or.inr hy2
+  | @trans a' b' c' _ _ ih1 ih2 =>
+    intro i x h1 h2 h3
+    by_cases h : i < off lines b'
+    · exact ih1 i x h1 h h3
+    · exact ih2 i x (by omega) h2 h3
+  | congr he _ ih =>
+    intro i x h1 h2 h3
+    exact ih i x h1 (by rw [he]; exact h2) h3
 
 /-- the end of the last token after `ts`, starting from `g` -/
 def lastStop (g : Pos) : List Tok5 → Pos
@@ -395,7 +453,7 @@ macro "g_ok" : tactic => `(tactic| (injection h with h; injection h with h1 h2; 
 
 theorem pseudoAction_g (lines : List (List Nat)) (g : Pos) (st st' : TState) (group : String) (start e : Nat) (tok : Option Tok5)
     (hsh : Shape st.endProgs) (hB : TopB st) (hl : LineOK lines st) (hse : start ≤ e) (hpos : st.pos = e)
-    (hfree : Gap lines g ⟨st.lnum, start⟩) (hend : group = "End" → allIn gapChar st.line start e)
+    (hfree : Gap lines g ⟨st.lnum, start⟩) (hend : group = "End" → allIn contChar st.line start e)
     (h : pseudoAction st group start e = .ok (tok, st')) :
     Gaps lines g tok.toList ∧ GI lines (lastStop g tok.toList) st' := by
   have hemax : e ≤ st.max := by rw [← hpos]; exact hl.pos
@@ -450,12 +508,12 @@ theorem pseudoAction_g (lines : List (List Nat)) (g : Pos) (st st' : TState) (gr
                     · intro _
                       show Gap lines g ⟨st.lnum, st.pos⟩
                       rw [hpos]
-                      exact Gap.trans hfree (Gap.on_line lines st hl start e hse hemax (hend hE))
+                      exact Gap.trans hfree (Gap.on_line_cont lines st hl start e hse hemax (hend hE))
                   · cases h
 
 
 /-- what the `End` branch of the master pattern may skip: backslash, CR, LF (certificate on the shipped pattern) -/
-def EndGap (P : Pats) : Prop := ∀ b ∈ P.pseudo, b.1 = "End" → onlyChars gapChar b.2 = true
+def EndGap (P : Pats) : Prop := ∀ b ∈ P.pseudo, b.1 = "End" → onlyChars contChar b.2 = true
 
 theorem nextPseudoMatches_g (lines : List (List Nat)) (E : Env) (P : Pats) (hEG : EndGap P) (hw g : Pos) (st st' : TState) (tok : Option Tok5)
     (hI : OInv hw st) (hft : FT lines st) (hg : GI lines g st) (hpre : TopB st ∨ st.pos = st.max ∨ st.inMiddle = true)
@@ -482,7 +540,7 @@ theorem nextPseudoMatches_g (lines : List (List Nat)) (E : Env) (P : Pats) (hEG 
       obtain ⟨r, hmem, hmat⟩ := matchBranches_sound _ _ _ _ _ _ _ hm
       exact pseudoAction_g lines g { st with pos := e } st' group st.pos e tok hI.shape hB
         ⟨hft.line.one, hft.line.cur, hft.line.max, hbd⟩ hge rfl (hg.free hB)
-        (fun hE => matchAt_onlyChars gapChar E _ r st.line st.pos e (hEG (group, r) hmem hE) hmat) h
+        (fun hE => matchAt_onlyChars contChar E _ r st.line st.pos e (hEG (group, r) hmem hE) hmat) h
 
 /-- the scan loop of one line -/
 theorem scanLine_g (lines : List (List Nat)) (E : Env) (P : Pats) (hP : PseudoProgress P) (hF : FstrLen P) (hE : FstrEnds P) (hEG : EndGap P) :
@@ -553,16 +611,10 @@ theorem scanLine_g (lines : List (List Nat)) (E : Env) (P : Pats) (hP : PseudoPr
       exact ⟨hacc, hg⟩
 
 
-def wsChar (c : Nat) : Bool := c = 32 || c = 9 || c = 12
-
 theorem allIn_mono {ok ok' : Nat → Bool} (h : ∀ c, ok c = true → ok' c = true) {s : Array Nat} {a b : Nat} (h1 : allIn ok s a b) : allIn ok' s a b := by
   intro i hi1 hi2
   obtain ⟨c, hc1, hc2⟩ := h1 i hi1 hi2
   exact ⟨c, hc1, h c hc2⟩
-
-theorem ws_gap (c : Nat) (h : wsChar c = true) : gapChar c = true := by
-  simp only [wsChar, gapChar, Bool.or_eq_true, decide_eq_true_eq] at h ⊢
-  omega
 
 /-- the indentation loop skips blanks, tabs and form feeds only -/
 theorem measureIndent_ws (tabsize : Nat) (line : Array Nat) : ∀ (fuel col pos : Nat),
@@ -609,7 +661,7 @@ theorem nextStatement_g (lines : List (List Nat)) (P : Pats) (g : Pos) (st st' :
   rw [hpos] at hws hple
   have hsz : st.line.toList.length = st.max := by rw [hl.max]; simp
   have hskip : Gap lines g ⟨st.lnum, (measureIndent P.tabsize st.line (st.max + 1) 0 0).2⟩ :=
-    Gap.trans hfree (Gap.on_line lines st hl 0 _ (Nat.zero_le _) (by have := hl.max; omega) (allIn_mono ws_gap hws))
+    Gap.trans hfree (Gap.on_line_ws lines st hl _ (by have := hl.max; omega) hws)
   unfold nextStatement at h
   rw [hpos] at h
   split at h
@@ -846,8 +898,8 @@ theorem brk_trailing (lines : List (List Nat)) (hnl : NonLastEndNL lines) (E : E
     have hmx : (st.moveNextLine l).max = l.length := rfl
     have hln : (st.moveNextLine l).lnum = st.lnum + 1 := rfl
     have hgap : Gap lines ⟨st.lnum + 1, 0⟩ ⟨st.lnum + 1, l.length⟩ := by
-      have := Gap.on_line lines (st.moveNextLine l) hl0 0 l.length (Nat.zero_le _) (by rw [hmx]; exact Nat.le_refl _)
-        (allIn_mono ws_gap (by rw [hmx] at hws; exact hws))
+      have := Gap.on_line_ws lines (st.moveNextLine l) hl0 l.length (by rw [hmx]; exact Nat.le_refl _)
+        (by rw [hmx] at hws; exact hws)
       rw [hln] at this; exact this
     have hlast : lines.length = st.lnum + 1 := by
       have hlt := (List.getElem?_eq_some_iff.mp hll).1
